@@ -1,0 +1,313 @@
+//go:build verif
+
+package dilithium
+
+import "golang.org/x/crypto/sha3"
+
+// Verification-only exports (build tag "verif"): aliases of the internal
+// arithmetic, packing and sampling functions, and a signer that can be told
+// to skip one of the signing-side rejection tests, so that the harness in
+// /verif can present every operand to the real functions and can make
+// signatures in which exactly one verifier-side condition fails.
+
+type VerifPoly = [N]int32
+
+func VerifMontgomeryReduce(a int64) int32 { return montgomeryReduce(a) }
+func VerifReduce32(a int32) int32         { return reduce32(a) }
+func VerifCAddQ(a int32) int32            { return cAddQ(a) }
+func VerifPower2Round(a int32) (a1, a0 int32) {
+	a1 = power2Round(&a0, a)
+	return
+}
+func VerifDecompose(a int32) (a1, a0 int32) {
+	a1 = decompose(&a0, a)
+	return
+}
+func VerifMakeHint(a0, a1 int32) uint   { return makeHint(a0, a1) }
+func VerifUseHint(a int32, h int) int32 { return useHint(a, h) }
+func VerifZetas() [N]int32              { return zetas }
+
+func VerifNTT(a *VerifPoly)          { ntt(a) }
+func VerifInvNTTToMont(a *VerifPoly) { invNTTToMont(a) }
+func VerifPointwiseMontgomery(c, a, b *VerifPoly) {
+	var pc, pa, pb poly
+	pa.coeffs, pb.coeffs = *a, *b
+	polyPointWiseMontgomery(&pc, &pa, &pb)
+	*c = pc.coeffs
+}
+func VerifPolyReduce(a *VerifPoly) {
+	p := poly{*a}
+	polyReduce(&p)
+	*a = p.coeffs
+}
+func VerifPolyCAddQ(a *VerifPoly) {
+	p := poly{*a}
+	polyCAddQ(&p)
+	*a = p.coeffs
+}
+func VerifChkNorm(a *VerifPoly, b int32) int {
+	p := poly{*a}
+	return polyChkNorm(&p, b)
+}
+
+// packers: kind in "eta", "t1", "t0", "z", "w1"
+func VerifPackedBytes(kind string) int {
+	switch kind {
+	case "eta":
+		return PolyETAPackedBytes
+	case "t1":
+		return PolyT1PackedBytes
+	case "t0":
+		return PolyT0PackedBytes
+	case "z":
+		return PolyZPackedBytes
+	case "w1":
+		return PolyW1PackedBytes
+	}
+	panic("unknown packer")
+}
+
+func VerifPack(kind string, a *VerifPoly) []uint8 {
+	p := poly{*a}
+	r := make([]uint8, VerifPackedBytes(kind))
+	switch kind {
+	case "eta":
+		polyEtaPack(r, &p)
+	case "t1":
+		polyT1Pack(r, &p)
+	case "t0":
+		polyT0Pack(r, &p)
+	case "z":
+		polyZPack(r, &p)
+	case "w1":
+		polyW1Pack(r, &p)
+	}
+	return r
+}
+
+func VerifUnpack(kind string, b []uint8) VerifPoly {
+	var p poly
+	switch kind {
+	case "eta":
+		polyEtaUnpack(&p, b)
+	case "t1":
+		polyT1Unpack(&p, b)
+	case "t0":
+		polyT0Unpack(&p, b)
+	case "z":
+		polyZUnpack(&p, b)
+	default:
+		panic("no unpacker")
+	}
+	return p.coeffs
+}
+
+func VerifPackSig(c []uint8, z *[L]VerifPoly, h *[K]VerifPoly) ([]uint8, error) {
+	var zv polyVecL
+	var hv polyVecK
+	for i := 0; i < L; i++ {
+		zv.vec[i].coeffs = z[i]
+	}
+	for i := 0; i < K; i++ {
+		hv.vec[i].coeffs = h[i]
+	}
+	sig := make([]uint8, CryptoBytes)
+	err := packSig(sig, c, &zv, &hv)
+	return sig, err
+}
+
+func VerifUnpackSig(sig [CryptoBytes]uint8) (c [SeedBytes]uint8, z [L]VerifPoly, h [K]VerifPoly, rc int) {
+	var zv polyVecL
+	var hv polyVecK
+	rc = unpackSig(&c, &zv, &hv, sig)
+	for i := 0; i < L; i++ {
+		z[i] = zv.vec[i].coeffs
+	}
+	for i := 0; i < K; i++ {
+		h[i] = hv.vec[i].coeffs
+	}
+	return
+}
+
+func VerifUnpackPk(pk *[CryptoPublicKeyBytes]uint8) (rho [SeedBytes]uint8, t1 [K]VerifPoly) {
+	var tv polyVecK
+	unpackPk(&rho, &tv, pk)
+	for i := 0; i < K; i++ {
+		t1[i] = tv.vec[i].coeffs
+	}
+	return
+}
+
+func VerifUnpackSk(sk *[CryptoSecretKeyBytes]uint8) (rho, tr, key [SeedBytes]uint8, t0 [K]VerifPoly, s1 [L]VerifPoly, s2 [K]VerifPoly) {
+	var t0v, s2v polyVecK
+	var s1v polyVecL
+	unpackSk(&rho, &tr, &key, &t0v, &s1v, &s2v, sk)
+	for i := 0; i < K; i++ {
+		t0[i] = t0v.vec[i].coeffs
+		s2[i] = s2v.vec[i].coeffs
+	}
+	for i := 0; i < L; i++ {
+		s1[i] = s1v.vec[i].coeffs
+	}
+	return
+}
+
+// samplers
+func VerifRejUniform(a []int32, buf []uint8) uint32 { return rejUniform(a, buf) }
+func VerifRejEta(a []int32, buf []uint8) uint32     { return rejEta(a, buf) }
+func VerifPolyUniform(seed *[SeedBytes]uint8, nonce uint16) VerifPoly {
+	var p poly
+	polyUniform(&p, seed, nonce)
+	return p.coeffs
+}
+func VerifPolyUniformEta(seed *[CRHBytes]uint8, nonce uint16) VerifPoly {
+	var p poly
+	polyUniformEta(&p, seed, nonce)
+	return p.coeffs
+}
+func VerifPolyUniformGamma1(seed [CRHBytes]uint8, nonce uint16) VerifPoly {
+	var p poly
+	polyUniformGamma1(&p, seed, nonce)
+	return p.coeffs
+}
+func VerifPolyChallenge(seed []uint8) VerifPoly {
+	var p poly
+	polyChallenge(&p, seed)
+	return p.coeffs
+}
+
+func VerifKeypair(seed []uint8) (pk [CryptoPublicKeyBytes]uint8, sk [CryptoSecretKeyBytes]uint8) {
+	cryptoSignKeypair(seed, &pk, &sk)
+	return
+}
+
+// Skip masks for VerifSignSkipping.
+const (
+	VerifSkipZ      = 1 // ||z|| < GAMMA1 - BETA
+	VerifSkipW0     = 2 // ||w0 - cs2|| < GAMMA2 - BETA
+	VerifSkipCt0    = 4 // ||ct0|| < GAMMA2
+	VerifSkipHints  = 8 // #hints <= OMEGA (packSig cannot encode more: returned as they are)
+	VerifWantZFail  = 16
+	VerifWantW0Fail = 32
+	VerifWantC0Fail = 64
+)
+
+// VerifSignSkipping is cryptoSignSignature built from the library's own helpers with the
+// rejection tests named in skip omitted; with a VerifWant* bit it keeps iterating until a
+// candidate actually fails that (skipped) test, so the result is a signature in which
+// everything is consistent except that one signing-side condition. It returns the packed
+// signature, the iteration (nonce) used and the exact norms of the accepted candidate.
+func VerifSignSkipping(m []uint8, sk *[CryptoSecretKeyBytes]uint8, skip int, maxIter int) (sig [CryptoBytes]uint8, iter int, maxZ, maxW0, maxCt0 int32, hints uint, ok bool) {
+	var rho, key, tr [SeedBytes]uint8
+	var mu, rhoPrime [CRHBytes]uint8
+	var s1, y, z polyVecL
+	var mat [K]polyVecL
+	var s2, t0, w1, h, w0 polyVecK
+	var cp poly
+	var nonce uint16
+
+	unpackSk(&rho, &tr, &key, &t0, &s1, &s2, sk)
+	state := sha3.NewShake256()
+	state.Write(tr[:])
+	state.Write(m)
+	state.Read(mu[:])
+	var dataToBeHashed [SeedBytes + CRHBytes]uint8
+	copy(dataToBeHashed[:], key[:SeedBytes])
+	copy(dataToBeHashed[SeedBytes:], mu[:CRHBytes])
+	sha3.ShakeSum256(rhoPrime[:], dataToBeHashed[:])
+	polyVecMatrixExpand(&mat, &rho)
+	polyVecLNTT(&s1)
+	polyVecKNTT(&s2)
+	polyVecKNTT(&t0)
+
+	norm := func(p *poly) int32 {
+		var m int32
+		for _, c := range p.coeffs {
+			t := c >> 31
+			t = c - (t & 2 * c)
+			if t > m {
+				m = t
+			}
+		}
+		return m
+	}
+	for iter = 0; iter < maxIter; iter++ {
+		var buf [K * PolyW1PackedBytes]uint8
+		var c [SeedBytes]uint8
+		polyVecLUniformGamma1(&y, rhoPrime, nonce)
+		nonce++
+		z = y
+		polyVecLNTT(&z)
+		polyVecMatrixPointWiseMontgomery(&w1, &mat, &z)
+		polyVecKReduce(&w1)
+		polyVecKInvNTTToMont(&w1)
+		polyVecKCAddQ(&w1)
+		polyVecKDecompose(&w1, &w0, &w1)
+		polyVecKPackW1(buf[:], &w1)
+		st := sha3.NewShake256()
+		st.Write(mu[:])
+		st.Write(buf[:])
+		st.Read(c[:])
+		polyChallenge(&cp, c[:])
+		polyNTT(&cp)
+
+		polyVecLPointWisePolyMontgomery(&z, &cp, &s1)
+		polyVecLInvNTTToMont(&z)
+		polyVecLAdd(&z, &z, &y)
+		polyVecLReduce(&z)
+		maxZ = 0
+		for i := 0; i < L; i++ {
+			if n := norm(&z.vec[i]); n > maxZ {
+				maxZ = n
+			}
+		}
+		zFail := polyVecLChkNorm(&z, GAMMA1-BETA) != 0
+		if zFail && skip&VerifSkipZ == 0 {
+			continue
+		}
+
+		polyVecKPointWisePolyMontgomery(&h, &cp, &s2)
+		polyVecKInvNTTToMont(&h)
+		polyVecKSub(&w0, &w0, &h)
+		polyVecKReduce(&w0)
+		maxW0 = 0
+		for i := 0; i < K; i++ {
+			if n := norm(&w0.vec[i]); n > maxW0 {
+				maxW0 = n
+			}
+		}
+		w0Fail := polyVecKChkNorm(&w0, GAMMA2-BETA) != 0
+		if w0Fail && skip&VerifSkipW0 == 0 {
+			continue
+		}
+
+		polyVecKPointWisePolyMontgomery(&h, &cp, &t0)
+		polyVecKInvNTTToMont(&h)
+		polyVecKReduce(&h)
+		maxCt0 = 0
+		for i := 0; i < K; i++ {
+			if n := norm(&h.vec[i]); n > maxCt0 {
+				maxCt0 = n
+			}
+		}
+		c0Fail := polyVecKChkNorm(&h, GAMMA2) != 0
+		if c0Fail && skip&VerifSkipCt0 == 0 {
+			continue
+		}
+
+		polyVecKAdd(&w0, &w0, &h)
+		hints = polyVecKMakeHint(&h, &w0, &w1)
+		if hints > OMEGA {
+			continue // cannot be encoded in OMEGA+K bytes
+		}
+		if (skip&VerifWantZFail != 0 && !zFail) || (skip&VerifWantW0Fail != 0 && !w0Fail) || (skip&VerifWantC0Fail != 0 && !c0Fail) {
+			continue
+		}
+		if err := packSig(sig[:], c[:], &z, &h); err != nil {
+			return
+		}
+		ok = true
+		return
+	}
+	return
+}
